@@ -74,6 +74,8 @@ def link_driver(name, variant, srcs, tus=("mir", "mir-gen"), cflags=(), ldflags=
     v = VARIANTS[variant]
     san = [f for f in v["cflags"] if f.startswith("-fsanitize") or f.startswith("-fno-sanitize") or f == "-fno-omit-frame-pointer"]
     dflags = [driver_opt, "-g", "-std=gnu11", "-w", "-fno-strict-aliasing", "-fwrapv", "-DNDEBUG", "-D" + GUARD] + san + list(cflags)
+    if any("address" in f for f in san):
+        dflags.append("-fno-sanitize-address-use-after-scope")  # drivers longjmp out of MIR error callbacks: scope tracking gives false reports there
     incs = ["-I" + REPO, "-I" + os.path.join(VERIF, "core"), "-I" + os.path.join(VERIF, "checks")]
     objs = list(lib(variant, tus)) if tus else []
     with cf.ThreadPoolExecutor(max_workers=8) as ex:
